@@ -659,8 +659,12 @@ class MultiRunner:
         self.h.control("me", HELO + b"\n")
         self.dns = os.path.join(self.h.dir, "dns")
         os.makedirs(self.dns, exist_ok=True)
-        import zlib
-        self.ips = ["127.0.%d.%d" % (20 + (zlib.crc32(str(wid).encode()) % 200), k) for k in (2, 3, 4)]
+        # loopback addresses of this worker only: the workers of one run are forked from one process and numbered 0..15 (a name's trailing digits),
+        # so (parent pid * 16 + number) mod 200 is distinct within a run and collides between two simultaneous runs only by accident
+        m = re.search(r"(\d+)$", str(wid))
+        idx = int(m.group(1)) % 16 if m else 15
+        fam = 0 if str(wid).isdigit() else 1
+        self.ips = ["127.%d.%d.%d" % (1 + fam, 20 + (os.getppid() * 16 + idx) % 200, k) for k in (2, 3, 4)]
         self.port = None
 
     def bind_all(self, listen):
